@@ -43,10 +43,23 @@ func runC20(r *vfw.Run) {
 	ctx := &seamrt.Ctx{ID: 0, Name: "node", Zone: time.UTC, MapSeed: uint64(1 + t.Choose("c20.mapseed", 1000))}
 	var m *protocol.PushPullManager
 	var tr interface{ VerifSizes() (int, int) }
+	// one run in three uses a holder of the transaction pool's shape: the items live elsewhere, Add is ignored, and
+	// nothing tells the tracker that an item has arrived (it has to ask Has)
+	poolLike := t.ChooseOpt("c20.poollike", 3) == 2
+	items := map[common.Hash128]bool{}
 	w.As(ctx, func() {
+		if poolLike {
+			mm, trk := protocol.VerifNewPushPullPoolLike(pullDelay, func(h common.Hash128) bool { return items[h] })
+			m, tr = mm, trk
+			return
+		}
 		mm, trk := protocol.VerifNewPushPull(pullDelay)
 		m, tr = mm, trk
 	})
+	store := func(h common.Hash128, what string) {
+		items[h] = true
+		m.VerifAddEntry(h, what)
+	}
 	maxPar := int(protocol.VerifMaxParallelPulls(m))
 	w.Preempt = true
 	w.PreemptEvery = []int{1, 1, 2, 3, 7}[t.Choose("c20.preemptevery", 5)]
@@ -78,8 +91,18 @@ func runC20(r *vfw.Run) {
 	for _, h := range hashes {
 		if t.Choose("c20.known", 6) == 0 {
 			known[h] = true
-			w.As(ctx, func() { m.VerifAddEntry(h, "known") })
+			w.As(ctx, func() { store(h, "known") })
 			arrived[h] = 0
+		} else if t.ChooseOpt("c20.broadcast", 4) == 3 {
+			// the item comes in by plain broadcast at some moment, asked for or not
+			h := h
+			w.SpawnAfter(time.Duration(t.Choose("c20.broadcastms", 8000))*time.Millisecond, ctx, "broadcast", func() {
+				if _, ok := arrived[h]; !ok {
+					arrived[h] = w.Elapsed()
+				}
+				store(h, "item")
+			})
+			r.Fault("item_arrives_by_broadcast")
 		}
 	}
 	annDone := 0
@@ -134,7 +157,7 @@ func runC20(r *vfw.Run) {
 					if _, ok := arrived[q.Hash]; !ok {
 						arrived[q.Hash] = w.Elapsed()
 					}
-					m.VerifAddEntry(q.Hash, "item")
+					store(q.Hash, "item")
 				})
 			} else {
 				r.Fault("announcer_never_serves")
@@ -168,6 +191,17 @@ func runC20(r *vfw.Run) {
 		if len(anns) == 0 {
 			continue
 		}
+		if at0, ok := arrived[h]; ok && len(reqs) == 0 {
+			earliest := anns[0].at
+			for _, a := range anns {
+				if a.at < earliest {
+					earliest = a.at
+				}
+			}
+			if at0 <= earliest+eps {
+				continue // it came in by broadcast before anybody announced it: nothing to ask for
+			}
+		}
 		if len(reqs) == 0 {
 			r.Violate("C20:announced-item-never-requested", "hash %x announced by %d peers, no pull request", h[:2], len(anns))
 		}
@@ -176,6 +210,9 @@ func runC20(r *vfw.Run) {
 			if a.at < first.at {
 				first = a
 			}
+		}
+		if at0, ok := arrived[h]; ok && at0 <= first.at+eps {
+			continue // held (by broadcast) when it was first announced; later requests are judged by the on-line oracle
 		}
 		if reqs[0].at > first.at+eps {
 			r.Violate("C20:first-announcer-not-asked-at-once", "hash %x first announced at %v, first request at %v", h[:2], first.at, reqs[0].at)
